@@ -168,6 +168,32 @@ func (sa *Safe) loadM(fr *frame, st *State, o *AObj, path string, t types.Type, 
 			return AVal{Kind: avInt, Lin: linAtom(a), Type: t}
 		}
 	}
+	// reading an unknown element of a small pointer array all of whose elements are tracked:
+	// non-nil if every one of them is
+	if _, isPtr := t.Underlying().(*types.Pointer); isPtr && strings.HasSuffix(path, "[*]") && !o.Summary && sa.fullyInit[o] {
+		pre := strings.TrimSuffix(path, "[*]")
+		n, allNonNil := 0, true
+		for p, v := range st.mem[o] {
+			if strings.HasPrefix(p, pre+"[") && !strings.Contains(p[len(pre):], "].") && !strings.Contains(p[len(pre)+1:], "[") {
+				n++
+				if sa.nilOfVal(st, v) != nilNo {
+					allNonNil = false
+				}
+			}
+		}
+		if n > 0 && allNonNil {
+			// the element read may be any of them, and may be stored through: forget what is known
+			// about every possible target (a weak update in advance)
+			for p, ev := range st.mem[o] {
+				if strings.HasPrefix(p, pre+"[") && ev.Obj != nil {
+					sa.havoc(st, ev.Obj, ev.Path)
+				}
+			}
+			v := sa.freshM(fr, st, t, desc, nilMaybe)
+			v.NonNil = true
+			return v
+		}
+	}
 	v := sa.freshM(fr, st, t, desc, nilMaybe)
 	if !o.Summary && !hasStar(path) {
 		if st.mem[o] == nil {
